@@ -2,6 +2,7 @@ import Setec.Proofs.DB
 import Setec.Proofs.Fs
 import Setec.Spec.DBMon
 import Setec.Generated.Facts
+import Setec.Proofs.MonitorsSound
 /-!
 # C04 - the database update is all-or-nothing under crashes and I/O failures
 
@@ -118,5 +119,13 @@ open Setec.Fs in
 /-- non-vacuity: a two-chunk (partial) write killed after the first chunk leaves the old file -/
 example : (execs { target := some ([1], 0o600), tmp := none } ((atomicWrite [[7], [8]] 0o600).take 2)).target = some ([1], 0o600) := by
   decide
+
+/-- The in-process clauses `savefail_noop` and `mem_eq_disk`, as the driver evaluates them on the
+real code's steps, hold of the specification's own step in every state that satisfies the store
+invariant. -/
+theorem monitors_sound (kv : KV.KV) (c : DB.Caller) (op : DB.Op) (aok sok : Bool) (h : KV.Inv kv) :
+    DBMon.c04_savefail_noop (MonSound.obsOf kv c op aok sok) = true ∧
+    DBMon.c04_mem_eq_disk (MonSound.obsOf kv c op aok sok) = true :=
+  ⟨MonSound.c04_savefail_noop_sound kv c op aok sok h, MonSound.c04_mem_eq_disk_sound kv c op aok sok⟩
 
 end Setec.C04
